@@ -1,10 +1,11 @@
 package main
 
 import (
-	"sync"
-	"math"
 	"bytes"
 	"fmt"
+	"math"
+	"sync"
+	"sync/atomic"
 
 	"github.com/biogo/biogo/alphabet"
 	"github.com/biogo/biogo/io/seqio"
@@ -120,6 +121,10 @@ func init() {
 
 func c01Case(r *obs.Run, i int) {
 	rng := r.Rng
+	roomyBefore := atomic.LoadInt64(&ioRoomyTemplates)
+	defer func() {
+		r.Count("reader_templates_with_spare_capacity", atomic.LoadInt64(&ioRoomyTemplates)-roomyBefore)
+	}()
 	hugeWidth := false
 	if i%50 == 17 {
 		c01ParallelWriters(r)
